@@ -4,7 +4,9 @@
   script interleaved in any way with any workload.
 -/
 import Hpfeeds.Lemmas.BrokerFrame
+import Hpfeeds.Lemmas.BrokerFault
 import Hpfeeds.Legacy
+import Hpfeeds.Props.C01
 namespace Hpfeeds.C10
 open Hpfeeds Hpfeeds.Broker Extracted
 
@@ -59,6 +61,76 @@ theorem only_publishes_from_others (cfg : Cfg) (s : State) (e : Event) (d : Nat)
     Handling any chunk terminates: `Broker.step` is a total function; `Broker.loop` is defined by
     well-founded recursion on the buffer length, without fuel, its termination proof resting on
     `header_ok` (`5 ≤ ml`, fix D1 — `Legacy.d1_no_progress` is the pinned decoder's counter-example). -/
+
+/-! ### A destination's transport refuses a write inside `Server.publish`
+
+C10 names the mechanism: "`Server.publish` wraps each destination write in try/except and closes only that
+destination".  `Model/BrokerFault.lean` extends the model by exactly that `except` branch (`F d` = the transport
+of `d` raises in `write()` during this event).  The statements hold in EVERY state, for EVERY fault set. -/
+
+/-- The extension without faults IS the model all other theorems are about: nothing above is weakened by it, and
+    the driver, which executes `stepF` for histories with injected faults, executes `step` for all others. -/
+theorem no_fault_is_the_model (cfg : Cfg) (s : State) (e : Event) : stepF (fun _ => false) cfg s e = step cfg s e :=
+  stepF_none cfg s e
+
+/-- FAULT ISOLATION.  Whatever set of destinations fails, the record of every connection whose own transport did
+    not refuse the write — its action log (hence: the copy of this message it is owed, exactly once, in order,
+    byte-identical), whether it is closing, its registration and subscriptions, everything — is EXACTLY what the
+    fault-free broker leaves there.  The publisher is such a connection too: it is not crashed or closed. -/
+theorem write_fault_isolated (F : Nat → Bool) (s : State) (src : Nat) (x : Conn) (ident ch p : Bytes) (d : Nat)
+    (hF : F d = false) :
+    (publishF F s src x ident ch p).conn d = (publish s src x ident ch p).conn d :=
+  foldl_deliverF_isolated F _ _ (nodup_eraseDups _) s hF
+
+/-- The faulty destination itself (open and subscribed): it is closed — the first `transport.close()` is logged at
+    this instant — it is written nothing, and nothing else of its record changes ("closes only that destination"). -/
+theorem write_fault_closes_that_destination (F : Nat → Bool) (s : State) (src : Nat) (x : Conn) (ident ch p : Bytes)
+    (d : Nat) (y : Conn) (hF : F d = true) (hy : s.conn d = some y) (hd : d ∈ s.subs ch) (ho : y.closing = false) :
+    (publishF F s src x ident ch p).conn d = some { y.beginClose with out := y.out ++ [(s.now, .close)] } := by
+  have hin : d ∈ (s.subs ch).eraseDups := List.mem_eraseDups.mpr hd
+  show ((s.subs ch).eraseDups.foldl (deliverF F (pubFrame ident ch p)) s).conn d = _
+  rw [foldl_deliverF_conn_in F _ _ (nodup_eraseDups _) s hin]
+  simp [deliverF, hy, ho, hF, closeT]
+
+/-- A faulty destination that is NOT subscribed to the channel is not touched at all. -/
+theorem write_fault_elsewhere_is_harmless (F : Nat → Bool) (s : State) (src : Nat) (x : Conn) (ident ch p : Bytes)
+    (d : Nat) (hd : d ∉ s.subs ch) :
+    (publishF F s src x ident ch p).conn d = s.conn d := by
+  have hin : d ∉ (s.subs ch).eraseDups := fun h => hd (List.mem_eraseDups.mp h)
+  exact foldl_deliverF_conn_notin F _ _ s hin
+
+/-- The accepted-log entry of a publish under faults lists as recipients exactly the open subscribers whose
+    transport took the write; the entitled set (the specification side) is unchanged by faults. -/
+theorem write_fault_recipients (F : Nat → Bool) (s : State) (src : Nat) (x : Conn) (ident ch p : Bytes) :
+    ∃ a, (publishF F s src x ident ch p).accepted =
+        ((s.subs ch).eraseDups.foldl (deliverF F (pubFrame ident ch p)) s).accepted ++ [a] ∧
+      a.recips = (recipsOf s ch).filter (fun d => !F d) ∧ a.entitled = s.ids.filter (isOpenSub s ch) := by
+  refine ⟨_, rfl, ?_, rfl⟩
+  simp only [recipsOf, List.filter_filter]
+  apply List.filter_congr
+  intro d _
+  cases s.conn d with
+  | none => simp
+  | some y => simp [Bool.and_comm]
+
+/-- The registry invariant — registry ⇄ `active_subscriptions`, no stale entry, no duplicate — holds after EVERY
+    history with write faults (any fault set per event, any store contents per event): the crash path "publish
+    meets a registry entry of a forgotten connection" stays unreachable, so a later publisher is never the victim
+    of somebody else's broken transport. -/
+theorem registry_survives_write_faults (cfg : Cfg) (es : List (Store × List Nat × Event)) : Reg (runF cfg es) :=
+  reg_runF cfg es
+
+/-! non-vacuity (kernel-evaluated): the C01 example history (connections 1 and 2 subscribed to "c", 1 publishes),
+    with connection 2's transport refusing the write: 2 is closed and written nothing, the publisher still gets its
+    own copy, and the accepted entry records recipient [1] of the entitled [1, 2]. -/
+def exFaulty : List (Store × List Nat × Event) :=
+  (C01.exHistory.dropLast.map fun e => (C01.exCfg.store, [], e)) ++ [(C01.exCfg.store, [2], .data 1 C01.exPub)]
+example : ((runF C01.exCfg exFaulty).conn 2).map (fun y => (y.closing, pubFrames y.out, y.out.getLast?.map (·.2))) =
+    some (true, [], some .close) := by decide +kernel
+example : ((runF C01.exCfg exFaulty).conn 1).map (fun y => (y.closing, pubFrames y.out)) =
+    some (false, [pubFrame [97] [99] [7]]) := by decide +kernel
+example : (runF C01.exCfg exFaulty).accepted.map (fun a => (a.recips, a.entitled)) = [([1], [1, 2])] := by
+  decide +kernel
 
 example := @Legacy.d2_stale_entry
 example := @Legacy.d1_no_progress
